@@ -19,6 +19,13 @@ Lemma parse_substitution_sem {N V} `{EqDecision N, EqDecision V}
   exec_stmt bop num (parse_substitution s) st = exec_stmt bop num s st.
 Proof. destruct s; reflexivity. Qed.
 
+(* the specification's expansion and the mirror of ast_shortcuts.rs are the same
+   function: the two lemmas above are one fact (second audit); only the one
+   about the mirror is an obligation (C13_compound_mirror_sem) *)
+Lemma parse_substitution_is_expected_statement {N} (s : cstmt N) :
+  parse_substitution s = expected_statement s.
+Proof. destruct s; reflexivity. Qed.
+
 (* the statement is sharp: with the operands the other way round, or with
    another constant, the assignment means something else *)
 Lemma swapped_operands_differ :
